@@ -55,6 +55,10 @@ CHECKS["C17"] = {
          "files": ["zz_verif_c17.go", "zz_verif_fixture.go", "zz_verif_world.go"], "with": ["verifdb"], "gen_stubs": [TX_STUB],
          "params": {"quick": grid(nA=[1, 2], nB=[0, 1]), "thorough": grid(nA=[0, 1, 2, 3], nB=[0, 1, 2])},
          "cover": ["accepted", "refused-by-limit"]},
+        {"name": "connector", "pkg": "internal/backend", "pkgname": "backend", "entry": "VerifC17Connector", "files": ["zz_verif_backend.go", "zz_verif_c02.go", "zz_verif_c06b.go"],
+         "with": ["verifdb", "state_export"],
+         "gen_stubs": [{"pkgpath": "github.com/ProtonMail/gluon/connector", "iface": "Connector", "type": "verifConnBase"}],
+         "params": {"quick": [{}], "thorough": [{}]}, "cover": ["connector-refused", "connector-accepted"]},
     ],
     "stubs": [],
     "outside": ["concurrent sessions racing between check and insert (serialised by the database write lock)"],
@@ -70,6 +74,9 @@ CHECKS["C13"] = {
          "params": {"quick": grid(n=[0, 1, 2, 3, 4, 5]), "thorough": grid(n=[0, 1, 2, 3, 4, 5, 6, 7, 8])}, "cover": []},
         {"name": "setheader", "pkg": "rfc822", "pkgname": "rfc822", "entry": "VerifSetHeader", "files": ["zz_verif_rfc822.go"],
          "params": {"quick": grid(n=[3, 4, 5]), "thorough": grid(n=[3, 4, 5, 6, 7])}, "cover": ["set-header-ok", "keyed-field"]},
+        {"name": "parts", "pkg": "internal/state", "pkgname": "state", "entry": "VerifC13Parts",
+         "files": ["zz_verif_c13.go"],
+         "params": {"quick": grid(g=[0, 1, 2]), "thorough": grid(g=[3, 4])}, "cover": ["parts-checked"]},
         {"name": "sections", "pkg": "internal/state", "pkgname": "state", "entry": "VerifC13Sections",
          "files": ["zz_verif_c13.go"],
          "params": {"quick": grid(template=[0], n=[0, 1, 2, 3, 4]) + grid(template=[1, 2, 3], n=[0, 2, 4]), "thorough": grid(template=[0], n=list(range(0, 8))) + grid(template=[1, 2, 3], n=[0, 2, 4, 6])},
